@@ -8,6 +8,7 @@ package main
 //   stream "conc"         (C20): query goroutines against a per-height oracle while blocks execute
 
 import (
+	"encoding/base64"
 	aolkeeper "github.com/medibloc/panacea-core/v2/x/aol/keeper"
 	"bytes"
 	"encoding/json"
@@ -511,9 +512,33 @@ func init() {
 		ownerB := accts[1].Bech()
 		// reads: listings (store iterators) of two different owners and of a topic's writers — served by different
 		// goroutines at the same time, as the gRPC server does — and a single item (store Get)
-		kinds := []string{"listing", "listing-b", "writers", "item"}
+		kinds := []string{"listing", "listing-b", "writers", "item", "did"}
+		// the DID the "did" reads resolve: created in the first block, updated in every later one; what a height holds
+		// is known by construction (sequence = number of updates, service endpoint names the block), so this kind's
+		// oracle does not come from asking the application
+		dk := newDidKey("conc-did")
+		cdid := didtypes.NewDID(dk.pub)
+		cvm := cdid + "#key1"
+		cdoc := func(bl int) *didtypes.DIDDocument {
+			vm := &didtypes.VerificationMethod{Id: cvm, Type: didtypes.ES256K_2019, Controller: cdid, PublicKeyBase58: dk.b58}
+			d := didtypes.NewDIDDocument(cdid, didtypes.WithVerificationMethods([]*didtypes.VerificationMethod{vm}),
+				didtypes.WithAuthentications([]didtypes.VerificationRelationship{rel(cvm)}))
+			d.Services = []*didtypes.Service{{Id: "s1", Type: "T", ServiceEndpoint: fmt.Sprintf("https://e/%d", bl)}}
+			return &d
+		}
+		didAns := func(code uint32, seq uint64, ep string) string { return fmt.Sprintf("%d:seq=%d:%s", code, seq, ep) }
 		q := func(kind string, height int64) string {
 			var r abci.ResponseQuery
+			if kind == "did" {
+				req := didtypes.QueryDIDRequest{DidBase64: base64.StdEncoding.EncodeToString([]byte(cdid))}
+				bz, _ := req.Marshal()
+				r = a.App.Query(abci.RequestQuery{Path: "/panacea.did.v2.Query/DID", Data: bz, Height: height})
+				var resp didtypes.QueryDIDResponse
+				if r.Code != 0 || resp.Unmarshal(r.Value) != nil || resp.DidDocumentWithSeq == nil || resp.DidDocumentWithSeq.Document == nil || len(resp.DidDocumentWithSeq.Document.Services) == 0 {
+					return fmt.Sprintf("%d:%x", r.Code, r.Value)
+				}
+				return didAns(r.Code, resp.DidDocumentWithSeq.Sequence, resp.DidDocumentWithSeq.Document.Services[0].ServiceEndpoint)
+			}
 			if kind == "listing" || kind == "listing-b" {
 				req := aoltypes.QueryTopicsRequest{OwnerAddress: owner}
 				if kind == "listing-b" {
@@ -586,6 +611,16 @@ func init() {
 				w := newAcct("w", []byte(fmt.Sprintf("conc-w-%d", bl)))
 				msgs = append(msgs, &aoltypes.MsgAddWriterRequest{TopicName: "t0", Moniker: "m", WriterAddress: w.Bech(), OwnerAddress: owner})
 			}
+			{
+				d := cdoc(bl)
+				if bl == 0 {
+					sg, _ := didtypes.Sign(d, 0, dk.priv)
+					msgs = append(msgs, &didtypes.MsgCreateDIDRequest{Did: cdid, Document: d, VerificationMethodId: cvm, Signature: sg, FromAddress: owner})
+				} else {
+					sg, _ := didtypes.Sign(d, uint64(bl-1), dk.priv)
+					msgs = append(msgs, &didtypes.MsgUpdateDIDRequest{Did: cdid, Document: d, VerificationMethodId: cvm, Signature: sg, FromAddress: owner})
+				}
+			}
 			bz, err := a.BuildTx(TxSpec{Msgs: msgs, Signers: []SignerSpec{{Acct: accts[0]}}, Fee: 1})
 			if err != nil {
 				panic(err)
@@ -606,8 +641,18 @@ func init() {
 			time.Sleep(time.Millisecond)
 			a.End()
 			a.Commit()
+			// a reader right after the commit, at the new height and at the previous one
+			if got := q("did", a.Height); got != didAns(0, uint64(bl), fmt.Sprintf("https://e/%d", bl)) {
+				mu.Lock()
+				wrong = append(wrong, obs{"did", a.Height, got})
+				mu.Unlock()
+			}
 			mu.Lock()
 			for _, k := range kinds {
+				if k == "did" {
+					oracle[fmt.Sprintf("%s@%d", k, a.Height)] = didAns(0, uint64(bl), fmt.Sprintf("https://e/%d", bl))
+					continue
+				}
 				oracle[fmt.Sprintf("%s@%d", k, a.Height)] = q(k, a.Height)
 			}
 			heights = append(heights, a.Height)
